@@ -6,7 +6,7 @@ import (
 )
 
 // C18-K2: whatever the outcome of a script call (success, run-time error, compile error, unknown SHA,
-// wrong arity), the interpreter that goes back to the pool no longer holds that call's KEYS / ARGV / EVAL_CMD.
+// wrong arity), the interpreter that goes back to the pool no longer holds that call's KEYS / ARGV.
 // Real cmdEvalUnified and the real gopher-lua VM.
 //verif:cfg b_outcomes=success|runtime_error|compile_error|unknown_sha|missing_key_argument b_variants=EVAL,EVALRO,EVALNA ignorego=1
 func VH_C18_globals_cleared() {
@@ -36,7 +36,6 @@ func VH_C18_globals_cleared() {
 	vassert("C18.K2.pool_get", perr == nil)
 	vassert("C18.K2.keys_cleared", L.GetGlobal("KEYS") == lua.LNil)
 	vassert("C18.K2.argv_cleared", L.GetGlobal("ARGV") == lua.LNil)
-	vassert("C18.K2.eval_cmd_cleared", L.GetGlobal("EVAL_CMD") == lua.LNil)
 	s.luapool.Put(L)
 }
 
